@@ -1113,13 +1113,17 @@ func (r *Resolver) answer(ctx context.Context, req, resp *dns.Msg, parentDS []dn
 			// No RRSIGs in the response. Determine whether missing
 			// signatures are acceptable (insecure delegation) or a
 			// real DNSSEC failure (signed zone).
-			if r.isZoneSecure(ctx, q.Name, parentDS, zone) {
+			if secure, localErr := r.zoneSecure(ctx, q.Name, parentDS, zone); localErr != nil {
+				return nil, localErr
+			} else if secure {
 				// The zone we queried is signed, but qname may live in an
 				// unsigned child delegated below it that this same server
 				// answered authoritatively (no referral crossed). Accept
 				// the unsigned data only if an insecure delegation between
 				// zone and qname is cryptographically proven.
-				if !r.provenInsecureDelegation(ctx, zone, q.Name, parentDS) {
+				if proven, localErr := r.insecureDelegationProven(ctx, zone, q.Name, parentDS); localErr != nil {
+					return nil, localErr
+				} else if !proven {
 					zlog.Warn("DNSSEC verify failed (answer)", "query", dnsutil.FormatQuestion(q), "error", dnssec.ErrNoSignatures.Error())
 					return nil, dnssec.ErrNoSignatures
 				}
@@ -1142,7 +1146,9 @@ func (r *Resolver) answer(ctx context.Context, req, resp *dns.Msg, parentDS []dn
 					continue
 				}
 				if len(candidateDSRR) == 0 {
-					if r.isZoneSecure(ctx, q.Name, origDSRR, zone) {
+					if secure, localErr := r.zoneSecure(ctx, q.Name, origDSRR, zone); localErr != nil {
+						return nil, localErr
+					} else if secure {
 						lastErr = dnssec.ErrDSRecords
 						continue
 					}
@@ -1296,12 +1302,16 @@ func (r *Resolver) authority(ctx context.Context, req, resp *dns.Msg, parentDS [
 
 		signers := r.findRRSIGSigners(resp, q.Name, false)
 		if len(signers) == 0 {
-			if r.isZoneSecure(ctx, q.Name, parentDS, zone) {
+			if secure, localErr := r.zoneSecure(ctx, q.Name, parentDS, zone); localErr != nil {
+				return nil, localErr
+			} else if secure {
 				// As in answer(): a negative response with no proof is
 				// only acceptable when qname sits under a proven insecure
 				// delegation below the signed zone we queried (the same
 				// shared-authority, no-referral case).
-				if !r.provenInsecureDelegation(ctx, zone, q.Name, parentDS) {
+				if proven, localErr := r.insecureDelegationProven(ctx, zone, q.Name, parentDS); localErr != nil {
+					return nil, localErr
+				} else if !proven {
 					err := dnssec.ErrNoSignatures
 					zlog.Warn("DNSSEC verify failed (NXDOMAIN)", "query", dnsutil.FormatQuestion(q), "error", err.Error())
 					return nil, err
@@ -1329,7 +1339,9 @@ func (r *Resolver) authority(ctx context.Context, req, resp *dns.Msg, parentDS [
 					continue
 				}
 				if len(candidateDSRR) == 0 {
-					if r.isZoneSecure(ctx, q.Name, origDSRR, zone) {
+					if secure, localErr := r.zoneSecure(ctx, q.Name, origDSRR, zone); localErr != nil {
+						return nil, localErr
+					} else if secure {
 						lastErr = dnssec.ErrDSRecords
 						continue
 					}
@@ -2573,18 +2585,28 @@ func (r *Resolver) findDS(ctx context.Context, signer, qname string, parentDS []
 // determine whether an insecure delegation exists between the ancestor and
 // the zone.
 func (r *Resolver) isZoneSecure(ctx context.Context, qname string, parentDS []dns.RR, zone string) bool {
+	secure, err := r.zoneSecure(ctx, qname, parentDS, zone)
+	return secure || err != nil
+}
+
+// zoneSecure is isZoneSecure with one more answer: a probe that was not
+// answered at all because of something local to this request — shed load,
+// the request's own budget or deadline — is reported as that error instead
+// of being folded into the fail-closed "signed". The validation paths return
+// it as it is, so the failure stays with this request.
+func (r *Resolver) zoneSecure(ctx context.Context, qname string, parentDS []dns.RR, zone string) (bool, error) {
 	if zone == rootzone && len(parentDS) == 0 && r.hasTrustAnchors() {
 		// The root has no parent and therefore no DS: it is signed because
 		// its keys are the configured trust anchors. Reading "no DS" as
 		// "insecure" here would let anyone strip the signatures from a
 		// root-zone answer or denial and have it accepted unvalidated.
-		return true
+		return true, nil
 	}
 	if !hasSupportedDS(parentDS) {
 		// Either no DS records, or every DS uses a digest type this
 		// validator cannot verify. RFC 6840 §5.2 treats such zones as
 		// if DNSSEC were absent, so missing RRSIGs are acceptable.
-		return false
+		return false, nil
 	}
 
 	dsrr := parentDS[0].(*dns.DS)
@@ -2594,7 +2616,7 @@ func (r *Resolver) isZoneSecure(ctx context.Context, qname string, parentDS []dn
 	// the zone is signed and the missing RRSIG is a real failure
 	// (RFC 4035 §5.3.3).
 	if zone != "" && strings.EqualFold(dsname, zone) {
-		return true
+		return true, nil
 	}
 
 	// The DS is from an ancestor zone. Probe the zone's own delegation
@@ -2619,12 +2641,20 @@ func (r *Resolver) isZoneSecure(ctx context.Context, qname string, parentDS []dn
 	// propagate cd=false into the internal DS walk here.
 	parentDS, err := r.findDS(ctx, "", probeName, parentDS, false)
 	if err != nil {
+		if middleware.IsRequestLocalResolutionError(err) {
+			// The probe was not answered at all — shed, over this
+			// request's budget, past its deadline. That says nothing
+			// about the zone; reported as what it is, so that the
+			// failure stays with this request and is not filed as a
+			// validation failure everyone is then served from cache.
+			return false, err
+		}
 		// On lookup error, fail closed (assume signed) for safety.
 		zlog.Debug("DS lookup failed during isZoneSecure, failing closed", "qname", qname, "error", err.Error())
-		return true
+		return true, nil
 	}
 
-	return hasSupportedDS(parentDS)
+	return hasSupportedDS(parentDS), nil
 }
 
 // provenInsecureDelegation reports whether qname falls under a
@@ -2647,10 +2677,18 @@ func (r *Resolver) isZoneSecure(ctx context.Context, qname string, parentDS []dn
 // the signed parent) yields false and stays bogus, so this can never be
 // used to downgrade. Any lookup/validation error also fails closed.
 func (r *Resolver) provenInsecureDelegation(ctx context.Context, zone, qname string, parentDS []dns.RR) bool {
+	proven, _ := r.insecureDelegationProven(ctx, zone, qname, parentDS)
+	return proven
+}
+
+// insecureDelegationProven is provenInsecureDelegation that also says when
+// the proof could not be looked for because of something local to this
+// request (see zoneSecure).
+func (r *Resolver) insecureDelegationProven(ctx context.Context, zone, qname string, parentDS []dns.RR) (bool, error) {
 	zone = strings.ToLower(dns.Fqdn(zone))
 	qname = strings.ToLower(dns.Fqdn(qname))
 	if zone == "" || strings.EqualFold(qname, zone) || !dnsutil.NameInZone(qname, zone) {
-		return false
+		return false, nil
 	}
 
 	qnameLabels := dns.CountLabel(qname)
@@ -2666,10 +2704,13 @@ func (r *Resolver) provenInsecureDelegation(ctx context.Context, zone, qname str
 
 		dsset, insecure, err := r.authenticatedDelegationDS(ctx, curSigner, candidate, curDS)
 		if err != nil {
-			return false
+			if middleware.IsRequestLocalResolutionError(err) {
+				return false, err
+			}
+			return false, nil
 		}
 		if insecure {
-			return true
+			return true, nil
 		}
 		if len(dsset) > 0 {
 			// Secure delegation — descend and keep checking.
@@ -2677,9 +2718,9 @@ func (r *Resolver) provenInsecureDelegation(ctx context.Context, zone, qname str
 			curSigner = candidate
 			continue
 		}
-		return false
+		return false, nil
 	}
-	return false
+	return false, nil
 }
 
 // authenticatedDelegationDS returns the authenticated DS RRset for child, or
@@ -4144,7 +4185,9 @@ func (r *Resolver) validateDelegation(ctx context.Context, req, resp *dns.Msg, q
 			continue
 		}
 		if len(candidateDSRR) == 0 {
-			if r.isZoneSecure(ctx, q.Name, origDSRR, zone) {
+			if secure, localErr := r.zoneSecure(ctx, q.Name, origDSRR, zone); localErr != nil {
+				return nil, localErr
+			} else if secure {
 				lastErr = dnssec.ErrDSRecords
 				continue
 			}
